@@ -281,19 +281,19 @@ func (c *Check) writeEvidence(nOK, nFail, nKnown, nAdv int, perRule map[string][
 		nfn = c.P.nfuncs
 	}
 	cov := map[string]any{
-		"explanation":       c.Explain,
-		"obligations":       nOK + nFail + nKnown,
-		"discharged":        nOK,
-		"known_findings":    nKnown,
-		"advisories":        nAdv,
-		"rules":             rules,
-		"samples":           samples,
-		"packages_loaded":   npk,
-		"functions_in_ssa":  nfn,
-		"goarch":            archOf(c.P),
-		"checker_cmd":       fmt.Sprintf("bin/gsverif check %s --tier %s", c.ID, c.Tier),
-		"anti_vacuity":      "every rule has a floor on the number of constructs it must match (listed under rule_floors); a rule below its floor is reported undecided (failure). The seeded-change corpus (/verif/seeded, DESIGN.md 8.6) is the positive test and is run by tools/seed_matrix.sh, not on every check run.",
-		"rule_floors":       c.Expects,
+		"explanation":      c.Explain,
+		"obligations":      nOK + nFail + nKnown,
+		"discharged":       nOK,
+		"known_findings":   nKnown,
+		"advisories":       nAdv,
+		"rules":            rules,
+		"samples":          samples,
+		"packages_loaded":  npk,
+		"functions_in_ssa": nfn,
+		"goarch":           archOf(c.P),
+		"checker_cmd":      fmt.Sprintf("bin/gsverif check %s --tier %s", c.ID, c.Tier),
+		"anti_vacuity":     "every rule has a floor on the number of constructs it must match (listed under rule_floors); a rule below its floor is reported undecided (failure). The seeded-change corpus (/verif/seeded, DESIGN.md 8.6) is the positive test and is run by tools/seed_matrix.sh, not on every check run.",
+		"rule_floors":      c.Expects,
 		"trusted_base": []string{"go/types and go/ssa of golang.org/x/tools v0.29.0", "VTA call graph (x/tools)",
 			"reference tables compiled into the checker (Linux ABI, README status table)", "the Linux kernel honours each syscall"},
 		"exhaustive": true,
